@@ -106,8 +106,9 @@ type UnsafePtr struct{ p Value }
 
 // targetPanic is a Go panic raised by the interpreted program.
 type targetPanic struct {
-	v   Value
-	msg string
+	v     Value
+	msg   string
+	where string
 }
 
 // engineError: unsupported construct / internal error -> path is inconclusive.
